@@ -7,6 +7,7 @@ package main
 import (
 	"encoding/json"
 	bcrpb "github.com/google/fhir/go/proto/google/fhir/proto/r4/core/resources/bundle_and_contained_resource_go_proto"
+	opb "github.com/google/fhir/go/proto/google/fhir/proto/r4/core/resources/observation_go_proto"
 	ppb "github.com/google/fhir/go/proto/google/fhir/proto/r4/core/resources/patient_go_proto"
 	"google.golang.org/protobuf/types/known/anypb"
 	"math/rand"
@@ -113,6 +114,17 @@ func inputForm(name string, mr1 proto.Message) []fhir.Resource {
 	case "bundle-empty-entries":
 		return []fhir.Resource{&bcrpb.Bundle{Entry: []*bcrpb.Bundle_Entry{{Resource: &bcrpb.ContainedResource{}}, {}, nil,
 			{Resource: &bcrpb.ContainedResource{OneofResource: &bcrpb.ContainedResource_Patient{}}}}}}
+	case "observation-odd-quantities":
+		q := func(v string) *opb.Observation_Component {
+			return &opb.Observation_Component{Value: &opb.Observation_Component_ValueX{Choice: &opb.Observation_Component_ValueX_Quantity{
+				Quantity: &dtpb.Quantity{Value: &dtpb.Decimal{Value: v}, Code: &dtpb.Code{Value: "mg"}, Unit: &dtpb.String{Value: "mg"}}}}}
+		}
+		sq := func(v string) *dtpb.SimpleQuantity { return &dtpb.SimpleQuantity{Value: &dtpb.Decimal{Value: v}, Code: &dtpb.Code{Value: "mg"}} }
+		return []fhir.Resource{&opb.Observation{
+			Value:          &opb.Observation_ValueX{Choice: &opb.Observation_ValueX_Quantity{Quantity: &dtpb.Quantity{Unit: &dtpb.String{Value: "mg"}}}},
+			Component:      []*opb.Observation_Component{q("1e-999999999"), q("1E+999999999"), q("5"), q("-2.5e-2147483647")},
+			ReferenceRange: []*opb.Observation_ReferenceRange{{Low: sq("1e-999999999"), High: sq("9e999999999")}},
+		}}
 	case "patient-empty-contained":
 		return []fhir.Resource{&ppb.Patient{Contained: []*anypb.Any{{}, nil, {TypeUrl: "type.googleapis.com/google.fhir.r4.core.ContainedResource"}},
 			Name: []*dtpb.HumanName{nil, {}}}}
